@@ -177,8 +177,12 @@ __CPROVER_ensures(__CPROVER_return_value == dst)
 ;
 
 /* ---- the decompressor object between calls ------------------------------------------------------------------------------ */
-#define C07_DREC_FIELDS(z) (C07_OUT_OK(z) && C07_ZI_OK(z) && (z)->header_len <= C07_HDR_MAX)
 #define C07_DEAD(z) ((z)->zlib_initialized == 0 && (z)->super.passthrough == 0)
+/* since the fix 9249f2d a dead stream has an EMPTY output window (the refused buffer is not kept): part of the object invariant */
+#define C07_DREC_FIELDS0(z) (C07_OUT_OK(z) && C07_ZI_OK(z) && (z)->header_len <= C07_HDR_MAX)
+#define C07_DREC_FIELDS(z) (C07_DREC_FIELDS0(z) && (C07_DEAD(z) ==> (z)->stream.avail_out == C07_BUF))
+/* on return from the end-of-body call (the last one) a refused final delivery may leave the window as it was */
+#define C07_DREC_FIELDS_POST(z) (C07_DREC_FIELDS0(z) && (C07_DEAD(z) ==> ((z)->stream.avail_out == C07_BUF || g_c07_eos)))
 /* KNOWN_F_C07_STALE_REDELIVERY (defined by default in the unit): obligation S4 is weakened to the states in which the code really
  * delivers nothing on a dead stream (output window not full and not the end-of-body call); without the macro S4 is asked for
  * every dead stream and FAILS on the unchanged tree: finding c07_stale_buffer_redelivery. */
@@ -205,7 +209,7 @@ __CPROVER_assigns(g_c07_cb, g_c07_cb_failed, g_c07_cb_rc, g_c07_cb_ptr, g_c07_cb
                   GZ(drec1)->stream, GZ(drec1)->zlib_initialized, GZ(drec1)->restart, GZ(drec1)->header, GZ(drec1)->header_len, GZ(drec1)->state, GZ(drec1)->crc,
                   drec1->passthrough)
 /* P0 the object stays well-formed for the next call (so this contract is an invariant over any sequence of calls) */
-__CPROVER_ensures(C07_DREC_FIELDS(GZ(drec1)) && GZ(drec1)->buffer == O(GZ(drec1)->buffer))
+__CPROVER_ensures(C07_DREC_FIELDS_POST(GZ(drec1)) && GZ(drec1)->buffer == O(GZ(drec1)->buffer))
 /* P1 result codes: OK, ERROR, the sink's refusal code, or (LZMA allocation failure) the raw SRes 2 / 4 */
 __CPROVER_ensures(__CPROVER_return_value == HTP_OK || __CPROVER_return_value == HTP_ERROR || (g_c07_cb_failed && __CPROVER_return_value == g_c07_cb_rc) ||
                   (O(GZ(drec1)->zlib_initialized) == HTP_COMPRESSION_LZMA && !g_c07_cb_failed && (__CPROVER_return_value == SZ_ERROR_MEM || __CPROVER_return_value == SZ_ERROR_UNSUPPORTED)))
